@@ -26,7 +26,10 @@ def mc_constants(tier, D=2):
     banks = {frozenset(conv_keys), low, frozenset({(0, 0)})}
     ups = {frozenset(up_keys), frozenset({(0, 0)})}
     dimset = {(4, 4), (4, 2), (6, 4)} if D == 2 else {(2, 2, 2), (4, 2, 2)}
-    return dict(Classes={"UNet", "ResNet", "DilResNet"}, Equivs={True, False}, DSet={D}, InSigs=sigs, OutSigs=sigs | {twins}, Depths={2},
+    # a signature of order-0 types only, one of them a pseudoscalar: the mid signature (union of input and output types) then has
+    # no block of order >= 1, the case in which a shortcut to element-wise activations / plain max pooling is wrong
+    ps_only = ((PS, 1),)
+    return dict(Classes={"UNet", "ResNet", "DilResNet"}, Equivs={True, False}, DSet={D}, InSigs=sigs | {ps_only}, OutSigs=sigs | {twins, ps_only}, Depths={2},
                 BlockSet={1, 2}, NConvs={1, 2}, NDowns={0, 1, 2}, GNs={True, False}, Preacts={True, False}, Banks=banks, UpBanks=ups,
                 DimSet=dimset)
 
@@ -103,10 +106,12 @@ def main(tier):
     for D in ((2,) if tier == "quick" else (2, 3)):
         consts = mc_constants(tier, D)
         jobs.append(dict(module_path="mc/MC_Architectures.tla", cfg=tlc.make_cfg(constants=consts, invariants=["AInv", "Emit"]), constants=consts,
-                         workers=8, coverage=True, timeout=6000))
+                         workers=8, coverage=False, timeout=6000))       # -coverage 1 doubles the run time here; vacuity guard below
     cases = []
     for r in tlc.run_many(jobs, parallel=2):
-        chk.add_tlc(r, vacuity_actions=("PickCfg", "Run"))
+        chk.add_tlc(r)
+        if r.ok and not (len(r.cases) > 100 and r.distinct > 2 * len(r.cases)):      # PickCfg states are emitted, Run states follow each
+            raise RuntimeError("vacuity: MC_Architectures visited %d states, %d configurations" % (r.distinct, len(r.cases)))
         if not r.ok:
             chk.spec_violation(r, "architecture invariant fails in the specification itself")
         cases += r.cases
